@@ -15,6 +15,7 @@ import (
 	"encoding/hex"
 	"encoding/json"
 	"fmt"
+	"strings"
 	"io"
 	"math/rand"
 	"time"
@@ -663,6 +664,72 @@ func runC09(c *core.Case, st *core.CaseStats, rep func(fn, kind string, in, exp,
 				}
 			}
 		})
+	case "enctamper", "encappend":
+		mode, n := argS(c, 0), argI(c, 1)
+		plain, secret, aad := rb(n), rb(9), rb(4)
+		var enc []byte
+		if mode == "cbc" {
+			enc, _ = cryptz.Encrypt(plain, secret)
+		} else {
+			enc, _ = cryptz.GCMEncrypt(plain, secret, aad)
+		}
+		txt := append([]byte{}, enc...)
+		in := map[string]interface{}{"mode": mode, "n": n}
+		mustErr, mayEqual := false, false
+		if c.Fn == "enctamper" {
+			where, b := argS(c, 2), byte(argI(c, 3))
+			i := map[string]int{"first": 0, "second": 1, "mid": len(txt) / 2, "last": len(txt) - 1}[where]
+			if txt[i] == b {
+				return
+			}
+			old := txt[i]
+			txt[i] = b
+			in["where"], in["byte"], in["replaces"] = where, b, string([]byte{old})
+			if mode == "gcm" {
+				// the same hex digit in the other letter case is the same message
+				same := (b|0x20) == (old|0x20) && ((b|0x20) >= 'a' && (b|0x20) <= 'f')
+				mustErr, mayEqual = !same, same
+			} else {
+				inAlpha := (b >= 'A' && b <= 'Z') || (b >= 'a' && b <= 'z') || (b >= '0' && b <= '9') || b == '+' || b == '/'
+				mustErr = !inAlpha && b != '\n' && b != '\r' && b != '='
+			}
+		} else {
+			cut := argI(c, 2)
+			suffix := core.RawInts(c.S)
+			if cut > len(txt) {
+				cut = len(txt)
+			}
+			txt = txt[:len(txt)-cut]
+			for _, x := range suffix {
+				txt = append(txt, byte(x))
+			}
+			in["cut"], in["suffix"] = cut, suffix
+			// (a cut character may be replaced by the same hex digit in the other letter case: the same message)
+			mayEqual = mode == "gcm" && strings.EqualFold(string(txt), string(enc))
+			mustErr = mode == "gcm" && !mayEqual
+		}
+		in["text"] = string(txt)
+		st.Nontrivial++
+		var dec []byte
+		var err error
+		name := "Decrypt"
+		if mode == "gcm" {
+			name = "GCMDecrypt"
+		}
+		if guard(name, in, func() {
+			if mode == "cbc" {
+				dec, err = cryptz.Decrypt(string(txt), secret)
+			} else {
+				dec, err = cryptz.GCMDecrypt(string(txt), secret, aad)
+			}
+		}) {
+			if mustErr && err == nil {
+				rep(name, "value", in, "error for a corrupted encoded message", dec)
+			}
+			if mayEqual && (err != nil || !bytes.Equal(dec, plain)) {
+				rep(name, "value", in, "the plaintext (hex digits are case-insensitive)", fmt.Sprint(dec, err))
+			}
+		}
 	case "garbage":
 		mode, n, kind := argS(c, 0), argI(c, 1), argS(c, 2)
 		in := map[string]interface{}{"mode": mode, "n": n, "kind": kind}
